@@ -4,12 +4,12 @@
 (* simulation and behaviour generation.  One module, several configs       *)
 (* (cfg/*.cfg) that pick the message alphabet of a property family.        *)
 (***************************************************************************)
-EXTENDS Props
+EXTENDS Props, Randomization, Json
 
 CONSTANTS
     Topics, Descs, Mons, RecKeys, RecVals,     \* aol alphabet
     FeePayers,                                  \* fee payer choices of AddRecord: subset of Accts \cup {"none"}
-    Dids, DocNames, Keys, VmNames,              \* did alphabet (documents are built in DocsOf)
+    Dids, DocNames, Keys, VmNames, Seqs,        \* did alphabet (documents are built in DocByName; Seqs: sequence numbers proofs are made over)
     DenomIds, TokenIds, DNames,                 \* pnft alphabet
     Amts, SendDenoms, VestEnds,                 \* bank alphabet
     Fees,                                       \* fee choices, e.g. {0,1}
@@ -20,11 +20,14 @@ CONSTANTS
     MaxTxLen,                                   \* 1 or 2
     Mints,                                      \* minted amounts tried at BeginBlock, e.g. {0}
     NextKinds,                                  \* subset of {"BeginBlock","RestartBegin","ExportImportBegin"}
+    SimSample,                                  \* 0: the whole message alphabet at every step; n > 0 (simulation only): a random sample of n messages per step
+    BlockKeep,                                  \* 1: EndBlock always enabled; k > 1 (simulation only): enabled with probability 1/k (longer blocks)
     FailKeep                                    \* 1: every rejected transaction is explored; k > 1 (simulation only): a rejected one is kept with probability 1/k
 
-VARIABLE ndel
+VARIABLES ndel,
+          path      \* history: the actions that led here (kept out of the state view; gives every distinct state one shortest path)
 
-mcvars == <<allvars, ndel>>
+mcvars == <<allvars, ndel, path>>
 
 InitBal == 1000000
 
@@ -41,6 +44,7 @@ Init ==
     /\ act = [name |-> "Init"]
     /\ acked = {} /\ accepted = {}
     /\ ndel = 0
+    /\ path = << >>
 
 -----------------------------------------------------------------------------
 (* message alphabets *)
@@ -78,7 +82,7 @@ DocsOf(d) == {DocByName(d, n) : n \in DocNames}
 AllDocs == UNION {DocsOf(d) : d \in Dids}
 
 \* proofs: any key, over the message's own document, another document, or a deactivation payload; sequence relative to the current one
-SeqChoices(d) == LET c == Cell(didReg, d).seq IN {c, c + 1} \cup (IF c > 0 THEN {c - 1} ELSE {})
+SeqChoices(d) == Seqs      \* absolute sequence numbers: stale, current and future ones all occur
 
 ProofsFor(d, own) ==
     {[key |-> k, data |-> dt, seq |-> s] : k \in Keys, dt \in ({own} \cup {DeactDoc(x) : x \in Dids}), s \in SeqChoices(d)}
@@ -134,7 +138,10 @@ AuthzMsgs ==
 
 Msgs == AolMsgs \cup DidMsgs \cup PnMsgs \cup BankMsgs \cup AuthzMsgs
 
-MsgSeqs == {<<m>> : m \in Msgs} \cup (IF MaxTxLen >= 2 THEN {<<m1, m2>> : m1 \in Msgs, m2 \in Msgs} ELSE {})
+Pool(n) == IF SimSample = 0 \/ Cardinality(Msgs) <= n THEN Msgs ELSE RandomSubset(n, Msgs)
+
+MsgSeqs == {<<m>> : m \in Pool(SimSample)}
+           \cup (IF MaxTxLen >= 2 THEN {<<m1, m2>> : m1 \in Pool(SimSample \div 3 + 1), m2 \in Pool(SimSample \div 3 + 1)} ELSE {})
 
 ReqSet(ms, ex) == LET r == Required([msgs |-> ms, exec |-> ex]) IN {r[i] : i \in DOMAIN r}
 
@@ -151,13 +158,17 @@ Txs == UNION { UNION { {[msgs |-> ms, signers |-> sg, fee |-> f, exec |-> ex] : 
 MCDeliver(tx) ==
     /\ ndel < MaxDeliver
     /\ (FailKeep = 1 \/ Outcome(tx).result = "ok" \/ RandomElement(1..FailKeep) = 1)
-    /\ Deliver(tx) /\ ndel' = ndel + 1 /\ HistNext
-MCEndBlock == height < MaxHeight /\ EndBlock /\ UNCHANGED ndel /\ HistNext
-MCBegin(m) == "BeginBlock" \in NextKinds /\ BeginBlock(m) /\ UNCHANGED ndel /\ HistNext
-MCRestart(m) == "RestartBegin" \in NextKinds /\ RestartBegin(m) /\ UNCHANGED ndel /\ HistNext
-MCExport(m) == "ExportImportBegin" \in NextKinds /\ ExportImportBegin(m) /\ UNCHANGED ndel /\ HistNext
+    /\ Deliver(tx) /\ ndel' = ndel + 1 /\ HistNext /\ path' = Append(path, act')
+MCEndBlock == height < MaxHeight /\ (BlockKeep = 1 \/ RandomElement(1..BlockKeep) = 1) /\ EndBlock /\ UNCHANGED ndel /\ HistNext /\ path' = Append(path, act')
+MCBegin(m) == "BeginBlock" \in NextKinds /\ BeginBlock(m) /\ UNCHANGED ndel /\ HistNext /\ path' = Append(path, act')
+MCRestart(m) == "RestartBegin" \in NextKinds /\ RestartBegin(m) /\ UNCHANGED ndel /\ HistNext /\ path' = Append(path, act')
+MCExport(m) == "ExportImportBegin" \in NextKinds /\ ExportImportBegin(m) /\ UNCHANGED ndel /\ HistNext /\ path' = Append(path, act')
+
+\* simulation only: keeps a behaviour going when the random filters above disabled everything else (dropped before replay)
+MCNoop == SimSample > 0 /\ act' = [name |-> "Noop"] /\ UNCHANGED <<height, phase, custom, bank, grants, hist, ndel, path>>
 
 Next ==
+    \/ MCNoop
     \/ \E tx \in Txs : MCDeliver(tx)
     \/ MCEndBlock
     \/ \E m \in Mints : MCBegin(m)
@@ -191,6 +202,12 @@ I_C07 == C07_Inv /\ C07_Ended
 I_C11 == C11_Inv /\ C11_View(SpecView)
 I_C12 == C12_Inv /\ C12_View(SpecView)
 I_C13 == C13_Inv /\ C13_View(SpecView)
+
+\* --- state-graph tours: every distinct state is printed once with one shortest path to it (listed as an INVARIANT, which TLC
+\* evaluates exactly once per distinct state); the whole transaction alphabet is printed once. The harness re-creates each
+\* state on the real application and fires the whole alphabet there.
+TourDump == PrintT(<<"TOUR", ToJson(path)>>)
+AlphabetDump == (path # << >>) \/ PrintT(<<"ALPHABET", ToJson(SetToSeq(Txs))>>)
 
 \* non-vacuity witnesses (each must be VIOLATED when listed as an invariant: TLC then shows a behaviour reaching it)
 W_TwoRecords == ~(\E k \in DOMAIN aolRecords : k[3] = 1)
